@@ -508,6 +508,7 @@ def write_evidence_file(mod, prop, tier, seed, report, exit_code):
             'steps_executed': agg['steps'],
             'fault_kinds_fired': agg['faults'],
             'runs_with_a_fired_fault': agg['fault_runs'],
+            'steps_per_fired_fault': round(agg['steps'] / max(sum(agg['faults'].values()), 1), 2),
             'probes': {p: agg['probes'].get(p, 0) for p in sorted(set(list(getattr(mod, 'PROBES', [])) + list(agg['probes'])))},
             'probes_never_hit': [p for p in getattr(mod, 'PROBES', []) if not agg['probes'].get(p)],
             'distinct_measures': {k: len(v) for k, v in sorted(sets.items())},
